@@ -4,7 +4,8 @@
    node list and the ordered, styled edge list). *)
 From Coq Require Import List Bool ZArith.
 Import ListNotations.
-From V Require Import PyBase NxModel Engine_gen.
+From Coq Require Import Permutation.
+From V Require Import PyBase NxModel Engine_gen SortTheory ExportTheory.
 Open Scope py_scope.
 
 Section C19.
@@ -38,4 +39,26 @@ Section C19.
   Qed.
 End C19.
 Print Assumptions C19_export_is_sorted_copy.
+
+(* Determinism: two graphs with the same SET of nodes and the same SET of styled edges - what a typeset
+   built from the same types in two different supply orders has - are exported identically, provided type
+   names are pairwise distinct (computed for the shipped table: T7 of props/C14.v; with two types of the
+   same name the stable sort would keep their supply order). *)
+Theorem C19_export_independent_of_supply_order :
+  forall (T D St L F : Type) (X : ctx T D St L F),
+    (forall a b, T_eqb X a b = true <-> a = b) ->
+  forall g1 g2 : graph T D St,
+    Permutation (g_nodes g1) (g_nodes g2) ->
+    Permutation (edge_styles X g1) (edge_styles X g2) ->
+    NoDup (g_nodes g1) -> NoDup (edge_pairs X g1) ->
+    (forall a b, type_name X a = type_name X b -> a = b) ->
+    output_graph_dot X g1 = output_graph_dot X g2.
+Proof.
+  intros T D St L F X Heq g1 g2 Pn Pe Hn He Hinj.
+  rewrite !C19_export_is_sorted_copy.
+  change (C19.export_graph X g1) with (ExportTheory.export_graph X g1).
+  change (C19.export_graph X g2) with (ExportTheory.export_graph X g2).
+  rewrite (export_depends_on_sets_only X Heq g1 g2 Pn Pe Hn He Hinj). reflexivity.
+Qed.
+Print Assumptions C19_export_independent_of_supply_order.
 Print Assumptions C19_method_exports_the_typeset_graph.
